@@ -115,6 +115,12 @@ CHAINS = {
     "re_escaped_dot": 'REGEX["^a\\\\.b$"]', "re_digits": 'REGEX["^\\\\d+$"]', "re_negated": 'REGEX["^[^x]*$"]', "re_alt": 'REGEX["^x|y$"]',
     "re_lazy": 'REGEX["a+?"]', "re_count": 'REGEX["^a{3}$"]', "re_decimal": 'REGEX["^[0-9]+(\\\\.[0-9]+)?$"]', "re_any": 'REGEX["^.$"]',
     "re_empty": 'REGEX["^$"]', "re_open_class": 'REGEX["^[a-z$"]', "re_open_group": 'REGEX["^(a$"]',
+    # nesting and counted repetition of groups, quantifier forms, braces as text, escapes inside classes
+    "re_nested_count": 'REGEX["^((a|b)c){2}$"]', "re_mac": 'REGEX["^([0-9a-f]{2}(:|-)){5}[0-9a-f]{2}$"]',
+    "re_nested_star": 'REGEX["^(a(b(c)?)*)+$"]', "re_dotted": 'REGEX["^[0-9]{1,3}(\\\\.[0-9]{1,3}){3}$"]', "re_count_open": 'REGEX["^(ab){2,}c{0,1}$"]',
+    "re_brace_text": 'REGEX["^a{b}c{$"]', "re_class_escapes": 'REGEX["^[a\\\\]\\\\.x]{2}[^\\\\]]$"]', "re_group_alt_empty": 'REGEX["^(a|)b$"]',
+    "re_alt_top_groups": 'REGEX["^(ab)|(cd)|e$"]', "re_quote_in_pattern": 'REGEX["^say \\"hi\\"$"]', "re_unicode": 'REGEX["^caf\u00e9+$"]',
+    "re_word_class": 'REGEX["^[\\\\w-]+$"]', "re_dot_star": 'REGEX["^a.*b.+c.?$"]',
 }
 
 
